@@ -96,6 +96,16 @@ func (c *Ctx) runSP(k spCase) string {
 	spec := specParse(k.cfg, k.now, k.ids, k.url, true, k.r)
 	toks := joinToks(k.cfg.toks(), []string{encInt(k.now)}, encStrList(k.ids), []string{encStr(k.url), "r", sigState(k.r.Sig, k.cfg)}, k.r.toks(k.cfg))
 	orc := oracleCmp(spec, impl)
+	if len(k.ids) == 0 {
+		// "no outstanding IDs" is one thing, however the caller's slice happens to be represented (nil, empty, empty with capacity)
+		for name, alt := range map[string][]string{"nil": nil, "empty": {}, "empty-cap": make([]string, 0, 4)} {
+			other := safely(func() string { return canonParse(s.ParseXMLResponse(xmlBytes, alt, mustURL(k.url))) })
+			c.count("c04-empty-id-list", name)
+			if other != impl && orc == "" {
+				orc = "with no outstanding request IDs the verdict depends on the representation of the empty list: " + name + " gives " + other + ", the call under test gave " + impl
+			}
+		}
+	}
 	if po := panicOracle(impl, "ParseXMLResponse"); po != "" {
 		orc = po
 	}
@@ -338,6 +348,29 @@ func (c *Ctx) genC03() {
 		}
 		if f.absent != nil {
 			variants(func(cfg SPCfg, r *Resp) { f.absent(cfg, r, ""); c.count("c03-single", f.name+":absent") })
+		}
+	}
+	// pairs: an optional part left out (which switches a check off) together with a perturbation of *another* field —
+	// leaving out the Response Issuer, the audience restriction or the assertion Issuer must not take any other check with it
+	for _, f1 := range fields {
+		if f1.absent == nil {
+			continue
+		}
+		for _, f2 := range fields {
+			if f2.name == f1.name {
+				continue
+			}
+			for i := range nmName {
+				for _, signed := range []string{"none", "idp"} {
+					cfg := baseCfg()
+					r := baseResp(cfg, now)
+					r.Sig = signed
+					f1.absent(cfg, &r, "")
+					f2.apply(cfg, &r, nearMiss(f2.expect(cfg))[i])
+					c.count("c03-pair", f1.name+":absent x "+f2.name)
+					run(cfg, r, cfg.Acs)
+				}
+			}
 		}
 	}
 	// the optional attributes of an Issuer element (Format, qualifiers) say nothing about who issued the message: every
